@@ -33,6 +33,12 @@ type connResp struct {
 	Interim int `json:"interim"`
 }
 
+const (
+	maxHeaderBytes = 8192
+	hdrLimit       = maxHeaderBytes + 4096 // conn.readRequest arms the connection reader with this before each header
+	bigBody        = 40000
+)
+
 func buildReq(cls string, cid, j int) (raw string, method string) {
 	common := fmt.Sprintf("Host: example.org\r\nX-Case: %d\r\nX-Req-Id: %d\r\n", cid, j)
 	smug := fmt.Sprintf("GET /smuggled HTTP/1.1\r\nHost: example.org\r\nX-Case: %d\r\n\r\n", cid)
@@ -40,6 +46,25 @@ func buildReq(cls string, cid, j int) (raw string, method string) {
 	if k := strings.IndexByte(cls, ':'); k > 0 { // "<METHOD>:<none|cl|chunked>"
 		m, f := cls[:k], cls[k+1:]
 		switch f {
+		case "clbig", "chunkedbig":
+			// body of bigBody bytes; the embedded request starts exactly hdrLimit bytes after the
+			// first byte of this request (where a reader still under the header limit would stop)
+			head := fmt.Sprintf("%s /r%d HTTP/1.1\r\n%s", m, j, common)
+			if f == "clbig" {
+				head += fmt.Sprintf("Content-Length: %d\r\n\r\n", bigBody)
+			} else {
+				head += fmt.Sprintf("Transfer-Encoding: chunked\r\n\r\n%x\r\n", bigBody)
+			}
+			var b strings.Builder
+			b.WriteString(strings.Repeat("x", hdrLimit-len(head)))
+			for b.Len()+len(smug) <= bigBody {
+				b.WriteString(smug)
+			}
+			b.WriteString(strings.Repeat("x", bigBody-b.Len()))
+			if f == "chunkedbig" {
+				return head + b.String() + "\r\n0\r\n\r\n", m
+			}
+			return head + b.String(), m
 		case "cl":
 			return fmt.Sprintf("%s /r%d HTTP/1.1\r\n%sContent-Length: %d\r\n\r\n%s", m, j, common, len(smug), smug), m
 		case "chunked":
@@ -115,7 +140,7 @@ func connCmd() {
 	}
 	defer bk.Close()
 	s, err := e2e.Start(e2e.Options{Clusters: []e2e.Cluster{{Name: "c1", Backends: []string{bk.Addr}}},
-		Tweak: func(cfg *bfe_conf.BfeConfig) { cfg.Server.MaxHeaderBytes = 8192 }})
+		Tweak: func(cfg *bfe_conf.BfeConfig) { cfg.Server.MaxHeaderBytes = maxHeaderBytes }})
 	if err != nil {
 		fatal("start: %v", err)
 	}
